@@ -176,6 +176,22 @@ def _dblock(g, depth, in_loop, in_routine, ret):
     return ["seq", items]
 
 
+def _tail_chain(g, in_routine, final_else):
+    """If/ElseIf chain of 2..4 links in which every Then-branch leaves the routine, as the LAST statement of a routine:
+    without a final Else the routine can still run off the chain's end (the compiler has to add the return itself)"""
+    def exit_():
+        if in_routine:
+            return g.pick([["return", None], ["return", None], ["approve"], ["seq", [["pop", ["int", 2]], ["return", None]]]])
+        return g.pick([["approve"], ["reject"], ["return", ["int", 1]], ["seq", [["pop", ["int", 2]], ["return", ["int", 0]]]]])
+
+    links = g.i(2, 4)
+    node = exit_() if final_else else None
+    for _ in range(links):
+        style = g.pick(["fn", "then", "elseif"])
+        node = ["if", _cond(g), exit_(), node, style]
+    return node
+
+
 @st.composite
 def degenerate_recipe(draw, long_sizes):
     g = gen.G(draw, draw(st.sampled_from(["app", "sig"])), 4, 1000, {"explicit_slots": False})
@@ -186,6 +202,8 @@ def degenerate_recipe(draw, long_sizes):
         items = [_dstmt(g, 0, False, True, ret) for _ in range(g.i(1, 3))]
         if ret != "N":
             items.append(["int", 7] if ret == "U" else ["bytes", "07"])
+        elif g.chance(3):
+            items.append(_tail_chain(g, True, g.chance(3)))
         routines.append({"name": "d%d" % i, "kind": "sub", "params": [], "ret": ret, "locals": {}, "body": ["seq", items] if g.chance(8) else (items[0] if len(items) == 1 else ["seq", items])})
     kind = g.i(0, 11)
     if kind == 0:
@@ -209,7 +227,10 @@ def degenerate_recipe(draw, long_sizes):
     for i, r in enumerate(routines):
         c = ["callN" if r["ret"] == "N" else "call", i, []]
         items.insert(g.i(0, len(items)), c if r["ret"] == "N" else ["pop", c])
-    items.append(["int", 1])
+    if kind >= 2 and g.chance(2):
+        items.append(_tail_chain(g, False, True))  # every path of main leaves through the chain
+    else:
+        items.append(["int", 1])
     # counter vars created via new_var live in g.vars (globals); they are stored before being loaded
     return {"mode": g.mode, "level": 4, "vars": g.vars, "routines": routines, "main": ["seq", items], "degenerate": True}
 
